@@ -215,6 +215,7 @@ func checkC06(c *Ctx) {
 	ruleFlipAfterDeadzone(c, dv, "R6.7")
 	ruleRescaleExact(c, dv, "R6.10")
 	ruleShiftOnlyUnsigned(c, dv, "R6.11")
+	ruleNoStaleRangeFlag(c, dv, "R6.18")
 	c.importRules(checkC07, []string{"R7.9"}, "R6.15") // the rest value is transmitted for a resting axis also after CC learning: a swallowed position is not remembered as sent
 	c.importRules(checkC07, []string{"R7.1"}, "R6.9")  // every position that passes the gates is transmitted: each controller path sends the active controller (no second, value-based suppression)
 	c.MinCount("R6.1", 2)
@@ -1475,3 +1476,129 @@ func callsTo(in *ssa.Function, target *ssa.Function) []ssa.CallInstruction {
 	scan(in)
 	return out
 }
+
+// ruleNoStaleRangeFlag: R6.18. The centre shift moves an unsigned position from [0,1] to [-1,1], and the handler keeps the
+// range in a flag that the shift sets (`canBeNegative = true`). What was decided from the flag's value *before* the shift
+// - a bound to clamp with, a sign to expect - describes coordinates the position no longer has: nothing decided by the old
+// value may be used once the shift has happened.
+func ruleNoStaleRangeFlag(c *Ctx, dv *dev, rule string) {
+	fn := dv.fn["handleABSEvent"]
+	key := "device.handleABSEvent/no-range-decision-from-before-the-centre-shift"
+	pos := c.P.Pos(fn.Pos())
+	isConstF := func(v ssa.Value, want float64) bool {
+		k, ok := v.(*ssa.Const)
+		if !ok || k.Value == nil {
+			return false
+		}
+		f, _ := constant.Float64Val(constant.ToFloat(k.Value))
+		return f == want
+	}
+	n, bad := 0, ""
+	for _, host := range dv.hostsOf(fn) {
+		for _, b := range host.Blocks {
+			for _, in := range b.Instrs {
+				sub, ok := in.(*ssa.BinOp)
+				if !ok || sub.Op != token.SUB || !isConstF(sub.Y, 1) {
+					continue
+				}
+				mul, ok := sub.X.(*ssa.BinOp)
+				if !ok || mul.Op != token.MUL || !(isConstF(mul.X, 2) || isConstF(mul.Y, 2)) {
+					continue
+				}
+				// the flag phi: merges the constant true set beside the shift with the flag's earlier value
+				for _, j := range host.Blocks {
+					for _, pin := range j.Instrs {
+						y, isPhi := pin.(*ssa.Phi)
+						if !isPhi {
+							break
+						}
+						if bt, isB := y.Type().Underlying().(*types.Basic); !isB || bt.Info()&types.IsBoolean == 0 {
+							continue
+						}
+						var old ssa.Value
+						set := false
+						for i, e := range y.Edges {
+							pred := j.Preds[i]
+							if k, isK := e.(*ssa.Const); isK && k.Value != nil && k.Value.Kind() == constant.Bool && constant.BoolVal(k.Value) && (pred == b || b.Dominates(pred)) {
+								set = true
+							} else {
+								old = e
+							}
+						}
+						if !set || old == nil {
+							continue
+						}
+						n++
+						if why := staleUses(c, old, y, j); why != "" && bad == "" {
+							bad = why
+						}
+					}
+				}
+			}
+		}
+	}
+	if n == 0 {
+		c.Trivial(rule, key, pos, "no range flag that the centre shift sets")
+		return
+	}
+	c.Check(bad == "", rule, key, pos, fmt.Sprintf("%d range flag(s) set by the centre shift; nothing decided by the earlier value is used afterwards", n), bad)
+}
+
+// staleUses: old is the flag before the shift, y the flag after it (defined in block j). A branch on old behind j, or a
+// value chosen by a branch on old (a phi at the join of such a branch) that is used behind j, is a stale decision.
+func staleUses(c *Ctx, old ssa.Value, y *ssa.Phi, j *ssa.BasicBlock) string {
+	if old.Referrers() == nil {
+		return ""
+	}
+	after := func(b *ssa.BasicBlock) bool { return b == j || j.Dominates(b) }
+	var conds []ssa.Value
+	conds = append(conds, old)
+	for i := 0; i < len(conds); i++ {
+		if conds[i].Referrers() == nil {
+			continue
+		}
+		for _, r := range *conds[i].Referrers() {
+			if u, ok := r.(*ssa.UnOp); ok && u.Op == token.NOT {
+				conds = append(conds, u)
+			}
+		}
+	}
+	for _, cv := range conds {
+		for _, r := range *cv.Referrers() {
+			ifi, ok := r.(*ssa.If)
+			if !ok {
+				continue
+			}
+			hb := ifi.Block()
+			if after(hb) && hb != j {
+				return fmt.Sprintf("the range flag from before the centre shift is tested again at %s, after the shift has set it", c.P.Pos(ifi.Pos()))
+			}
+			// values chosen by this branch
+			for _, jb := range hb.Parent().Blocks {
+				if jb.Idom() != hb || len(jb.Preds) < 2 {
+					continue
+				}
+				for _, pin := range jb.Instrs {
+					p, isPhi := pin.(*ssa.Phi)
+					if !isPhi {
+						break
+					}
+					if p == y || p.Referrers() == nil {
+						continue
+					}
+					for _, use := range *p.Referrers() {
+						if _, isDbg := use.(*ssa.DebugRef); isDbg {
+							continue
+						}
+						if use.Block() != nil && after(use.Block()) && !(use.Block() == j && isPhiInstr(use)) {
+							return fmt.Sprintf("%s, chosen at %s by the range flag as it was before the centre shift, is used at %s after the shift: it describes the range [0,1] for a position that is in [-1,1] by then (a clamp bound, a sign expectation)", p.Comment, c.P.Pos(ifi.Pos()), c.P.Pos(use.Pos()))
+						}
+					}
+				}
+			}
+		}
+	}
+	return ""
+}
+
+func isPhiInstr(in ssa.Instruction) bool { _, ok := in.(*ssa.Phi); return ok }
